@@ -22,6 +22,11 @@ Init == T = RootTree(RootBox) /\ hist = <<>>
 CutSet(pbox, dim) ==
   IF Kind = "dbin"
   THEN {c \in [1 .. DD -> 0 .. W] : CutsOK(P, pbox, 1, c)}
+  ELSE IF Kind \in {"bin", "kary"}
+  THEN \* equal-size kinds have at most one admissible cut vector: build it instead of filtering (W+1)^(K+1) candidates
+       LET lo == pbox[dim][1]  hi == pbox[dim][2]  K == Arity(P)
+           c == [j \in 1 .. K + 1 |-> lo + (j - 1) * ((hi - lo) \div K)]
+       IN IF CutsOK(P, pbox, dim, c) THEN {c} ELSE {}
   ELSE {c \in [1 .. Arity(P) + 1 -> pbox[dim][1] .. pbox[dim][2]] : CutsOK(P, pbox, dim, c)}
 
 Dims == IF Kind = "dbin" THEN {1} ELSE 1 .. DD
